@@ -107,7 +107,7 @@ func cmdFunc(args []string) {
 			continue
 		}
 		res := e.VerifyFunc(key)
-		sv := &Solver{Dir: dir, Timeout: *timeout, Par: runtime.NumCPU(), Prelude: e.Prelude(), QFPrelude: e.QFPrelude()}
+		sv := &Solver{Dir: dir, Timeout: *timeout, Par: runtime.NumCPU(), Prelude: e.Prelude(), QFPrelude: e.QFPrelude(), Eng: e}
 		sv.SolveAll(res.Obligations)
 		fmt.Printf("== %s: %d obligations, %d unsupported\n", key, len(res.Obligations), len(res.Unsupported))
 		for _, u := range res.Unsupported {
